@@ -126,42 +126,31 @@ def r2_counts(ctx):
         wr = [x for x in A.calls_in(f) if A.call_target(x) == ('self', '_write_segment')]
         ok = len(wr) == 1
         yield Ob(key + ' writes the trailer once', ok, ctx.floc(f), '' if ok else '%d _write_segment calls' % len(wr))
-    # trailer template
+    # trailer template: the text handed to Segment(), evaluated for two argument triples and two separators
     f = ctx.func('x12file', 'X12Writer._get_trailer_segment')
     params = [a.arg for a in f.args.args][1:]
-    tmpl = None
-    for s in ast.walk(f):
-        if isinstance(s, ast.Assign) and isinstance(s.value, ast.Call) and isinstance(s.value.func, ast.Attribute) \
-                and s.value.func.attr == 'format' and A.is_str(s.value.func.value):
-            tmpl = s
-    if tmpl is None or len(params) != 3:
+    segc0 = [c for c in A.calls_in(f) if A.call_target(c)[1] == 'Segment']
+    if len(segc0) != 1 or not segc0[0].args or len(params) != 3:
         raise AnalysisError('_get_trailer_segment: template not recognised')
-    try:
-        env = {params[0]: 'SE', params[1]: 12, params[2]: '0007', 'self.ele_term': '*', 'ele_term': '*'}
-        for s in f.body:
-            if isinstance(s, ast.Assign) and isinstance(s.targets[0], ast.Name) and s is not tmpl:
+    tmpl = segc0[0].args[0]
+
+    def _text(a, b, c, sep):
+        env = {params[0]: a, params[1]: b, params[2]: c, 'self.ele_term': sep}
+        for s_ in f.body:
+            if isinstance(s_, ast.Assign) and len(s_.targets) == 1 and isinstance(s_.targets[0], ast.Name):
                 try:
-                    env[s.targets[0].id] = A.ev(s.value, env)
+                    env[s_.targets[0].id] = A.ev(s_.value, env)
                 except A.NotClosed:
                     pass
-        text = A.ev(tmpl.value, env)
-    except A.NotClosed as e:
-        raise AnalysisError('_get_trailer_segment: template not closed: %s' % e)
+        try:
+            return A.ev(tmpl, env)
+        except A.NotClosed as e:
+            raise AnalysisError('_get_trailer_segment: template not closed: %s' % e)
+    text = _text('SE', 12, '0007', '*')
     ok = text == 'SE*12*0007'
     yield Ob('x12file:X12Writer._get_trailer_segment template prints id, count, control number', ok, ctx.floc(f, tmpl),
              '' if ok else 'template yields %r for (SE, 12, 0007)' % text)
-    # the separator inside the template must be the writer's own: evaluate again with another separator
-    try:
-        env = {params[0]: 'GE', params[1]: 3, params[2]: '17', 'self.ele_term': '|', 'ele_term': '|'}
-        for s in f.body:
-            if isinstance(s, ast.Assign) and isinstance(s.targets[0], ast.Name) and s is not tmpl:
-                try:
-                    env[s.targets[0].id] = A.ev(s.value, env)
-                except A.NotClosed:
-                    pass
-        text2 = A.ev(tmpl.value, env)
-    except A.NotClosed as e:
-        raise AnalysisError('_get_trailer_segment: template not closed: %s' % e)
+    text2 = _text('GE', 3, '17', '|')
     ok = text2 == 'GE|3|17'
     yield Ob('x12file:X12Writer._get_trailer_segment template uses the writer\'s element separator', ok, ctx.floc(f, tmpl),
              '' if ok else 'with element separator | the template yields %r: the trailer is then parsed with another separator than it was built with' % text2)
@@ -244,14 +233,14 @@ def r4_isa_delims(ctx):
     s11 = sets.get('ISA11') or sets.get('11')
     ok = s11 is not None and path_of(s11[1].args[1]) == 'self.repetition_term'
     if ok:
-        facts = IN[s11[0].id]
-        ok = any(fct[0] == 'Eq' and fct[2] == '00501' for fct in (facts or ()))
-        # and the tested value is ISA12
-        src = None
-        for s in ast.walk(f):
-            if isinstance(s, ast.Assign) and isinstance(s.value, ast.Call) and A.call_target(s.value)[1] == 'get_value':
-                src = A.const(s.value.args[0])
-        ok = ok and src in ('ISA12', '12')
+        facts = IN[s11[0].id] or ()
+        # the version tested is ISA12 of the segment being written (directly, or through a local bound to it)
+        ok = any(fct[0] == 'Eq' and fct[2] == '00501' and fct[1] in ("seg_data.get_value('ISA12')", "seg_data.get_value('12')") for fct in facts)
+        if not ok:
+            for s in ast.walk(f):
+                if isinstance(s, ast.Assign) and isinstance(s.value, ast.Call) and A.call_target(s.value) == ('seg_data', 'get_value') \
+                        and A.const(s.value.args[0]) in ('ISA12', '12') and isinstance(s.targets[0], ast.Name):
+                    ok = ok or any(fct[0] == 'Eq' and fct[2] == '00501' and fct[1] == s.targets[0].id for fct in facts)
     yield Ob('x12file:X12Writer._write_isa_segment ISA11 := repetition separator when ISA12 is 00501', ok, ctx.floc(f),
              '' if ok else 'ISA11 handling changed')
 
